@@ -703,6 +703,9 @@ func firstIterRefuted(ctx *Ctx, or *OblResult, secs int) bool {
 			if normName(o.Name) != want || o.Bound != "" {
 				continue
 			}
+			if o.Taint.Valid() && o.Taint.S != "false" {
+				continue // reached through something the under-approximation abstracts (unmodelled call, range-over-func loop)
+			}
 			r := Solve(fr.VC, o, secs, false, "fi")
 			if r.Status == "sat" {
 				return true
